@@ -37,6 +37,21 @@ EvalTo(dd, M, j, k) == IF j >= k THEN M
                        ELSE EvalTo(dd, TLCEval(MatThen(M, LayerT(Scans(dd)[j + 1], dd.boxes[j + 1], dd.offs[j + 1]))), j + 1, k)
 EvalPrefix(dd, k) == EvalTo(dd, IdT(TyDims(dd.dom)), 0, k)
 EvalD(dd) == EvalPrefix(dd, Len(dd.boxes))
+\* the same diagram with integer-valued boxes (the real parts of the generic arrays): what a diagram of boxes
+\* holding integer arrays denotes
+GenRe(s, dm, cd) == T(dm, cd, LAMBDA r, c : <<1 + 2 * r + 3 * c + 7 * s + ((r * c + s) % 5), 0>>)
+BoxTRe(b) ==
+  CASE b.kind = 1 -> SwapT(TyDims(<<b.dom[1]>>), TyDims(<<b.dom[2]>>))
+    [] b.kind = 2 -> CupT(TyDims(<<b.dom[1]>>))
+    [] b.kind = 3 -> CapOf(TyDims(<<b.cod[1]>>))
+    [] OTHER -> IF b.dg = 1 THEN ConjT(GenRe(b.id, TyDims(b.cod), TyDims(b.dom)))
+                ELSE GenRe(b.id, TyDims(b.dom), TyDims(b.cod))
+RECURSIVE EvalToRe(_, _, _, _)
+EvalToRe(dd, M, j, k) ==
+  IF j >= k THEN M
+  ELSE LET sc == Scans(dd)[j + 1] b == dd.boxes[j + 1] o == dd.offs[j + 1] IN
+       EvalToRe(dd, TLCEval(MatThen(M, Whisker(TyDims(Slice(sc, 0, o)), BoxTRe(b), TyDims(Slice(sc, o + Len(b.dom), Len(sc)))))), j + 1, k)
+EvalDRe(dd) == EvalToRe(dd, IdT(TyDims(dd.dom)), 0, Len(dd.boxes))
 
 (***************************************************************************)
 (* Exhaustive model: rigid diagrams over a small signature with boxes,     *)
